@@ -137,7 +137,10 @@ func c10File(r *rand.Rand) (kind string, data []byte, wellFormed bool) {
 			"&a [*a]\n", "- &x {command: a}\n- *x\n", "- command: !!binary aGk=\n",
 			// undecodable content whose own text looks like an operating-system error message
 			"- command: x\n  keywords: no such file or directory\n", "- command: x\n  keywords: permission denied\n", "!<no%20such%20file%20or%20directory> x\n",
-			"- command: x\n  pipeline: permission denied\n", "- command: [no such file or directory]\n"}
+			"- command: x\n  pipeline: permission denied\n", "- command: [no such file or directory]\n",
+			// a wrong-typed value beside entries that decode
+			"- command: ok\n  description: fine\n- 42\n", "- command: ok\n- command: {a: b}\n", "- command: ok\n  keywords: [a]\n  pipeline: [1, 2]\n- command: second\n",
+			"- command: ok\n- command: two\n  keywords: {a: b}\n- command: three\n"}
 		s := shapes[r.Intn(len(shapes))]
 		wf := s == "- command: x\n  unknown_field: 1\n" || s == "- command: 5\n  description: true\n" || s == "null\n" || s == "---\n...\n" || s == "- null\n" || s == "- &x {command: a}\n- *x\n" || s == "- command: !!binary aGk=\n"
 		return "shape", []byte(s), wf
